@@ -42,6 +42,10 @@ func c01(w *core.World, r *core.Report) {
 		}
 	}
 
+	r.Rule("R12.4", "the arguments replayed are the bytes the source sent: bulk framing of the decoder and ParseArgs slicing (shared with C12)", 2)
+	ruleBulkFraming(w, r)
+	r.Rule("R12.2", "the stream is read by the decoder only (shared with C12)", 3)
+	ruleSoleReader(w, r)
 	r.Rule("R01.4", "nothing invented: enumerated constant commands, enumerated synthesised items, parser sends only decoded/filter-projected commands", 6)
 	if c != nil {
 		ruleNothingInventedSender(w, r, c)
